@@ -180,9 +180,9 @@ CLAIMED["C06"] = dict(
          "including fragments not yet sent; (3) in every reachable sender state _transmit never hands an abandoned "
          "chunk to the network; (4) abandonment preserves the sender's no-deadlock invariant; (5) at the receiver a "
          "FORWARD-TSN leaves every stream it does not name alone except for pruning chunks at or below its own "
-         "cumulative TSN (sequence counter unchanged, nothing delivered); with C01's at-most-once and ordered-prefix "
-         "theorems (which hold for any mix of channels) deliveries on PR channels are duplicate-free and in order. "
-         "PARTIAL: end-to-end non-interference and recovery after healing are statements over two endpoints, observed on the "
+         "cumulative TSN (sequence counter unchanged, nothing delivered). PARTIAL: duplicate-freedom and order of PR "
+         "deliveries are proved (C01 theorems 5 and 7) for arrival lists without FORWARD-TSN only; with FORWARD-TSN "
+         "they are checked by the receiver-level and two-endpoint oracles; end-to-end non-interference and recovery after healing are statements over two endpoints, observed on the "
          "two-endpoint simulator (mixed reliable / PR channels, faults, heal, probe message per channel), not "
          "proved; six genuine stall/loss defects found that way are repaired in /repo.",
     design_ref="5 / C06",
